@@ -127,6 +127,20 @@ def one(run, ct, rng, net, quick):
         r = finder_case(run, net, tree0, sf, ix_sl, cost, kw, allow_outer, d, after)
         if r:
             out.append(r)
+        # best(k=...): the k best cached slicings - each of them is "returned" and must honour the targets; the first is best()
+        if rng.random() < 0.5:
+            try:
+                topk = sf.best(k=rng.randint(2, 4))
+                if topk and frozenset(topk[0][0]) != frozenset(ix_sl):
+                    run.violation(f"best(k)[0] = {sorted(topk[0][0])} differs from best() = {sorted(ix_sl)}", d, tags={"api", "best-k"})
+                for ixk, costk in topk[1:]:
+                    rk = finder_case(run, net, tree0, sf, ixk, costk, kw, allow_outer, dict(d, call="best-k"))
+                    if rk:
+                        out.append(rk)
+            except core.Hang:
+                raise
+            except Exception as e:
+                out.append(("raised", core.exc_text(e), dict(d, call="best-k")))
     # ---- (2) targets overridden per call: search(target_...=) / trial(...) + best(...) -----------------------
     if rng.random() < 0.6:
         ctor = draw_targets(rng, size0)
